@@ -1,3 +1,4 @@
+mod ociapp;
 mod gen;
 mod gen2;
 mod gen3;
